@@ -22,6 +22,7 @@
 Not decided: cell-level histogram counts (numpy.histogramdd trusted).
 """
 import ast
+import re
 
 from ..engines.seqval import SeqExec, show
 from ..srcmodel import AnalysisError, U, calls_in, walk_shallow, names_in
@@ -781,6 +782,21 @@ def check_sort_and_load(ctx):
             if isinstance(c, ast.Call) and isinstance(c.func, ast.Name) and c.func.id == 'sorted':
                 n += 1
                 ctx.ob('sort-stable', fi, c, True, 'python\'s sorted is stable', construct='stability of Domain.sort: ' + U(c)[:40])
+                # the key: none (the names' own order) or the size; a key that REPLACES the names' order (their text, their length, their lower case)
+                # sorts integer labels 10 before 2 / merges distinct names
+                key = next((k.value for k in c.keywords if k.arg == 'key'), None)
+                if key is not None and U(key) not in ('self.size', 'self.config.get', 'self.config.__getitem__'):
+                    kt = U(key).replace(' ', '')
+                    own = re.fullmatch(r'lambda(\w+):\(isinstance\(\1,str\),\1\)', kt) or re.fullmatch(r'lambda(\w+):\(type\(\1\)isstr,\1\)', kt) \
+                        or re.fullmatch(r'lambda(\w+):\(type\(\1\)\.__name__,\1\)', kt)
+                    bysize = re.fullmatch(r'lambda(\w+):self\.(size\(\1\)|config\[\1\])', kt) or re.fullmatch(r'lambda(\w+):\(self\.(size\(\1\)|config\[\1\]),.*\)', kt)
+                    other = kt in ('str', 'repr', 'len', 'str.lower', 'hash') or re.fullmatch(r'lambda(\w+):(str|repr|len)\(\1\)', kt) or re.fullmatch(r'lambda(\w+):\1\.lower\(\)', kt)
+                    if not (own or bysize or other):
+                        raise AnalysisError('Domain.sort: sort key `%s` is in no recognised form' % U(key)[:60])
+                    if not bysize:
+                        ctx.ob('sort-stable', fi, c, bool(own), 'sorting by name uses the names\' own order; the key `%s` %s' % (U(key)[:50],
+                               'only separates strings from other labels and then compares the names themselves' if own else
+                               'replaces it: integer labels are ordered as text (10 before 2), distinct names can compare equal'), construct='order of Domain.sort by name')
         ctx.floor('sorting sites in Domain.sort', n, 1)
     # ---- load ----------------------------------------------------------------------------------------------------------------
     if ctx.repo.has_func(DS, 'Dataset.load'):
